@@ -201,21 +201,15 @@ def judge(case):
                     r_ = G.intersection(pool[i], pool[j])
                 except Exception:
                     r_ = None
-                if r_ is not None and hasattr(r_, "move"):
-                    pre = [M.snap(o) for o in W.everything()]
-                    vec_ = G.Vector(1.25, -0.5, 2.0)
+                # only a result that shares no object with any live object is the caller's to move (a face of a
+                # polyhedron or an operand returned as the result is not: moving it would be the caller changing the operand)
+                if r_ is not None and hasattr(r_, "move") and not M.shares_state(r_, W.everything()):
                     try:
-                        r_.move(vec_)
+                        r_.move(G.Vector(1.25, -0.5, 2.0))
                     except Exception:
                         pass
-                    if [M.snap(o) for o in W.everything()] != pre:
-                        try:
-                            r_.move(G.Vector(-1.25, 0.5, -2.0))       # the result is (part of) an operand: put it back
-                        except Exception:
-                            pass
-                    else:
-                        mu.cell("history:returned-object-moved-by-caller")
-                        reask.append((i, j, ans))
+                    mu.cell("history:returned-object-moved-by-caller")
+                    reask.append((i, j, ans))
             if _helper_problem:
                 mu.fail("helper-modifies-arguments", _helper_problem[0])
             bad = compare(step, ())
